@@ -23,6 +23,7 @@ def monitorConc (kind : String) (compare : Bool) (fs : List Res) (final : State)
   if (← fldNat impl "inflight_at_return") != 0 then return some "returned_while_an_exchange_it_started_was_still_running"
   if (← fldNat impl "goroutines_leaked") != 0 then return some "goroutines_left_behind"
   if (fldOpt impl "callers_disagree").isSome then return some "concurrent_callers_interfere"
+  if outcome == "error" && kind != "cancel" then return some "call_fails_or_does_not_return"
   let panics := (fs.zipIdx.filterMap (fun (r, i) => match r with | .panic _ => some i | .val _ => none))
   if !panics.isEmpty then
     if outcome != "panic" then return some "panic_of_a_check_lost"
